@@ -1,25 +1,36 @@
 #!/venv/bin/python
-"""Apply one calibration mutant (by name prefix, e.g. M01) to /repo, run a command, undo.
+"""Apply one calibration mutant (by name prefix, e.g. M01) or a patch file in a SCRATCH worktree of /repo,
+run a command there with VERIF_REPO pointing at it, remove the worktree.  /repo itself is never touched.
 
 usage: tools/mutant.py M01 -- ./check C01 --tier quick
+       tools/mutant.py path/to/patch.diff -- ./check C01 --tier quick
 """
-import subprocess, sys
+import os, subprocess, sys, tempfile
 sys.path.insert(0, '/verif/tools')
 from mutants_e import M
 name = sys.argv[1]
 cmd = sys.argv[sys.argv.index('--') + 1:]
-m = [x for x in M if x[0].startswith(name)]
-assert len(m) == 1, m
-_, f, old, new = m[0]
-p = '/repo/pyglove/' + f
-s = open(p).read()
-if s.count(old) != 1:
-  print(f'mutant {name}: pattern occurs {s.count(old)} times in {f}'); sys.exit(3)
-assert subprocess.run(['git', '-C', '/repo', 'status', '--porcelain'], capture_output=True, text=True).stdout.strip() == '', 'repo dirty'
-open(p, 'w').write(s.replace(old, new))
+wt = tempfile.mkdtemp(prefix='wt-lead-', dir='/tmp')
+os.rmdir(wt)
+subprocess.run(['git', '-C', '/repo', 'worktree', 'add', '--detach', '-q', wt, 'HEAD'], check=True)
+rc = 3
 try:
-  r = subprocess.run(cmd, cwd='/verif')
-  print(f'[mutant {m[0][0]}] exit={r.returncode}')
+  if os.path.exists(name):
+    subprocess.run(['git', '-C', wt, 'apply', os.path.abspath(name)], check=True)
+    label = name
+  else:
+    m = [x for x in M if x[0].startswith(name)]
+    assert len(m) == 1, m
+    label, f, old, new = m[0]
+    p = wt + '/pyglove/' + f
+    s = open(p).read()
+    if s.count(old) != 1:
+      print(f'mutant {name}: pattern occurs {s.count(old)} times in {f}'); sys.exit(3)
+    open(p, 'w').write(s.replace(old, new))
+  env = dict(os.environ, VERIF_REPO=wt)
+  r = subprocess.run(cmd, cwd='/verif', env=env)
+  rc = r.returncode
+  print(f'[mutant {label}] exit={rc}')
 finally:
-  subprocess.run(['git', '-C', '/repo', 'checkout', '--', '.'])
-sys.exit(r.returncode)
+  subprocess.run(['git', '-C', '/repo', 'worktree', 'remove', '--force', wt])
+sys.exit(rc)
